@@ -166,6 +166,17 @@ CHECKS = {
         "random.uniform replaced by a + (b - a) * r; exact float<->Fraction conversion; parameters valid (0 <= base_s <= max_s, ...).",
         "DESIGN.md §6 C18",
     ),
+    "C20": (
+        "Coq proof (totality and non-negativity of the parser for every character-class string and every answer of the date oracle; integer / date / garbage cases; attribute-before-headers; composition with retry_after_or and the retry loop's clamp) tied by in-Coq equality with the implementation's answers on generated strings, attribute values and header containers (now() frozen), incl. Python's int() itself against the model's py_int",
+        "Theorems C20_parse_total, C20_coerce_total, C20_classifier_total, C20_integer(_general), C20_date_or_garbage, C20_blank, "
+        "C20_attribute_first, C20_honoured for the Gallina model of extras/http.py (int() parsing incl. Unicode digits, underscores "
+        "and the 4300-digit limit; int->float rounding and overflow; header lookup order), as repaired by fix commit a10e77c. The "
+        "stdlib HTTP-date parser is an oracle (its answer is universally quantified in the theorems and supplied by the driver in "
+        "the correspondence); that it raises only the three caught exception types is trusted and fuzzed.",
+        "Trusted: Coq kernel + vm_compute; hand-written model RetryAfter.v (tied by correspondence only); retry_after_driver.py "
+        "(frozen now, container shapes); character classification by Python's str.isspace/isdecimal in the harness.",
+        "DESIGN.md §6 C20",
+    ),
 }
 
 NOT_YET = "check not built yet at this commit (work in progress; see DESIGN.md §10 build order)"
@@ -199,7 +210,7 @@ def main():
             "enable": "no source hooks are needed: checks import /repo/src as it is (PYTHONPATH=/repo/src) and "
             "observe it through scripted callbacks, spies and a virtual clock; REDRESS_VERIF=1 is exported but unused",
             "baseline_off_cmd": "cd /repo && /venv/bin/python -m pytest -ra -q -p no:cacheprovider --timeout=900",
-            "source_commits": ["7959b97", "4805882", "e37d3df"],
+            "source_commits": ["7959b97", "4805882", "e37d3df", "a10e77c"],
             "add_only": True,
         },
         "engines": [
